@@ -5,7 +5,9 @@ import glob, json, os, re
 rows = []
 # first runs whose verdict was about something else than the seeded change (the scratch worktree predated a repair of /repo)
 STALE_FIRST = {'C17': 'missed (the alarm of the first run was the then-unrepaired GET 0)', 'C01b': 'failing input (first run also saw the then-unrepaired GET 0)',
-               'C02': 'failing input (run by hand, VERIF_SEED=1)', 'C08b': 'missed'}
+               'C02': 'failing input (run by hand, VERIF_SEED=1)', 'C08b': 'missed',
+               'C17f': 'interrupted (the run was killed by the operator together with another one); re-run on a fresh worktree: failing input',
+               'C31f': 'failing input — but only because lists longer than 300 were added to the quick tier after reading the seeding agent\'s report (the thorough tier had 1025 / 1100 before)'}
 for d in sorted(glob.glob('/verif/seeded/*/')):
     name = os.path.basename(d.rstrip('/'))
     try:
@@ -36,6 +38,7 @@ for d in sorted(glob.glob('/verif/seeded/*/')):
     if name in STALE_FIRST:
         first = STALE_FIRST[name]
     final = m2 or verdict
+    title = title.replace('|', '/')
     rows.append(f"| {name} | {title[:110]} | {', '.join(os.path.basename(f) for f in files)} | {first} | {final[:190]} |")
 print('| seed | change | file(s) | first run | current check |\n|---|---|---|---|---|')
 print('\n'.join(rows))
